@@ -87,7 +87,7 @@ def copy_headers(srcdirs, hdr, log, r2_types):
     return n_r2
 
 
-TYPEDEF_RX = re.compile(r'typedef\s+((?:std::)?(?:map|vector|set|pair)\s*<[^;]+>)\s+(\w+)\s*;')
+TYPEDEF_RX = re.compile(r'typedef\s+((?:std::)?(?:map|vector|set|pair|unordered_map|unordered_set|list|deque|multimap|multiset)\s*<[^;]+>)\s+(\w+)\s*;')
 
 
 def typedef_table(hdr, extra=()):
